@@ -266,7 +266,8 @@ def solver_session(tr, path, na, twopl, opts, ops, backend_cfg, clock,
     undo_b = world.install_backend(be)
     undo_c = world.install_clock(clock)
     argv = build_argv(path, na, twopl, opts)
-    shown = ['{file}' if a == path else a for a in argv]
+    shown = [a.replace(path, '{file}') if isinstance(a, str) else a
+             for a in argv]
     idle_rng = random.Random(backend_cfg.get('idle_seed', 0))
     try:
         tr.t_entry = clock.seconds()
